@@ -485,7 +485,7 @@ fn run(tier: &str, seed: u64, checked: bool, rep: &mut Report) {
         mixed_case(&mut rng, checked, rep);
     }
     // device descriptions
-    let n_small = if thorough { 12_000 } else { 700 };
+    let n_small = if thorough { 12_000 } else { 2_500 };
     let small = GenOpts::small();
     for _ in 0..n_small {
         let mut d = eg::gen_device(&mut rng, &small);
@@ -501,7 +501,7 @@ fn run(tier: &str, seed: u64, checked: bool, rep: &mut Report) {
         }
         run_device_case(&d, false, &mut rng, checked, rep);
     }
-    let n_full = if thorough { 400 } else { 25 };
+    let n_full = if thorough { 400 } else { 60 };
     let full = GenOpts::full();
     for i in 0..n_full {
         let mut d = eg::gen_device(&mut rng, &full);
